@@ -33,6 +33,16 @@ def L.forget (n : String) : L → L
   | .rep c m b rest => .rep c m (b.forget n) (rest.forget n)
   | .wrap b rest => .wrap (b.forget n) (rest.forget n)
   | .hdr rest => .hdr (rest.forget n)
+  | .times k m b rest => .times k m (b.forget n) (rest.forget n)
+  | .sub m b rest => .sub m (b.forget n) (rest.forget n)
+  | .kfld m p k rest => .kfld m p k (rest.forget n)
+  | .key m p v rest => .key m p v (rest.forget n)
+  | .mopt k m b rest => .mopt k m (b.forget n) (rest.forget n)
+  | .vopt v m b rest => .vopt v m (b.forget n) (rest.forget n)
+  | .mrep k m b rest => .mrep k m (b.forget n) (rest.forget n)
+  | .vrep v m b rest => .vrep v m (b.forget n) (rest.forget n)
+  | .srep c b rest => .srep c (b.forget n) (rest.forget n)
+  | .avail b => .avail (b.forget n)
   | .unknown w => .unknown w
 
 def L.subst (n : String) (v : Int) : L → L
@@ -49,6 +59,16 @@ def L.subst (n : String) (v : Int) : L → L
   | .rep c m b rest => .rep c m (b.subst n v) (rest.subst n v)
   | .wrap b rest => .wrap (b.subst n v) (rest.subst n v)
   | .hdr rest => .hdr (rest.subst n v)
+  | .times k m b rest => .times k m (b.subst n v) (rest.subst n v)
+  | .sub m b rest => .sub m (b.subst n v) (rest.subst n v)
+  | .kfld m p k rest => .kfld m p k (rest.subst n v)
+  | .key m p u rest => .key m p u (rest.subst n v)
+  | .mopt k m b rest => .mopt k m (b.subst n v) (rest.subst n v)
+  | .vopt u m b rest => .vopt u m (b.subst n v) (rest.subst n v)
+  | .mrep k m b rest => .mrep k m (b.subst n v) (rest.subst n v)
+  | .vrep u m b rest => .vrep u m (b.subst n v) (rest.subst n v)
+  | .srep c b rest => .srep c (b.subst n v) (rest.subst n v)
+  | .avail b => .avail (b.subst n v)
   | .unknown w => .unknown w
 
 end Layout
